@@ -163,6 +163,21 @@ func (s shape) extHeader(g int) string {
 	return strings.Join(parts, ", ")
 }
 
+// extRendered is how renderHS shows the offered extensions of generation g when all are accepted as offered.
+func (s shape) extRendered(g int) string {
+	var b strings.Builder
+	for i, n := range s.ExtLens {
+		b.WriteString(" | " + word(g, 10+i, n))
+		if kl := s.ParamLens[i][0]; kl > 0 {
+			b.WriteString(";" + word(g, 20+i, kl) + "=")
+			if vl := s.ParamLens[i][1]; vl > 0 {
+				b.WriteString(word(g, 30+i, vl))
+			}
+		}
+	}
+	return b.String()
+}
+
 func (s shape) request(g int, deflate string) []byte {
 	key := base64.StdEncoding.EncodeToString([]byte(word(g, 40, 16)))
 	ext := s.extHeader(g)
@@ -567,6 +582,13 @@ func TestResultsSurvivePoolReuse(t *testing.T) {
 		if kind == "Dialer" || strings.HasPrefix(kind, "Upgrader") || strings.HasPrefix(kind, "HTTPUpgrader") {
 			if !strings.Contains(snapshot, "proto="+s.protos(0)[s.Pick]) {
 				t.Fatalf("harness: unexpected handshake result %q", snapshot)
+			}
+			// every accepted extension is its own copy of what was offered: with a selector that accepts everything
+			// the result lists all offers as sent (several accepted options of one header line must not share memory)
+			if strings.HasSuffix(kind, "/Protocol+Extension") {
+				if want := "proto=" + s.protos(0)[s.Pick] + s.extRendered(0); snapshot != want {
+					t.Fatalf("%s: the handshake result right after the call is\n  %q\nthe request offered (and the selector accepted)\n  %q", kind, snapshot, want)
+				}
 			}
 		}
 
